@@ -416,3 +416,13 @@ Proof. vm_compute. reflexivity. Qed.
 Example ex_manifest_hostile_count :
   Manifest.read ManifestCodecs.cbnt_HashList_desc [255;255; 255;255] = None.
 Proof. vm_compute. reflexivity. Qed.
+
+(* ---- format constants ----
+   The models take their format constants from Gen/Consts.v, which is regenerated from /repo's
+   source on every run; Spec/ConstPins.v (committed, written by bin/mkpins) pins every one of them
+   to the value the specifications give it.  A constant that drifts in the Go source breaks this
+   theorem instead of being silently followed by model and generator. *)
+From Fiano Require Spec.ConstPins.
+Theorem C20_format_constants_pinned : Spec.ConstPins.pinned_c20.
+Proof. exact Spec.ConstPins.pins_c20. Qed.
+Print Assumptions C20_format_constants_pinned.
